@@ -56,6 +56,17 @@ def build_harness():
                        os.path.join(HARNESS_DIR, "Cargo.toml")], env, "harness")
 
 
+ASAN_EVALSRV = os.path.join(TARGET, "asan", "x86_64-unknown-linux-gnu", "release", "evalsrv")
+
+
+def build_asan():
+    """evalsrv under AddressSanitizer/LeakSanitizer (nightly toolchain, offline)."""
+    env = dict(CARGO_ENV, CARGO_TARGET_DIR=os.path.join(TARGET, "asan"),
+               RUSTFLAGS="-Zsanitizer=address -Cforce-frame-pointers=yes")
+    return _run_build(["cargo", "+nightly", "build", "--release", "--offline", "--target", "x86_64-unknown-linux-gnu",
+                       "--manifest-path", os.path.join(HARNESS_DIR, "Cargo.toml"), "--bin", "evalsrv"], env, "ASan evalsrv")
+
+
 def build_cli():
     env = dict(CARGO_ENV, CARGO_TARGET_DIR=os.path.join(TARGET, "cli"))
     return _run_build(["cargo", "build", "--release", "--offline", "--manifest-path",
@@ -100,7 +111,8 @@ class Crashed(Exception):
 def _limits(mem_bytes):
     def f():
         import resource
-        resource.setrlimit(resource.RLIMIT_AS, (mem_bytes, mem_bytes))
+        if mem_bytes:
+            resource.setrlimit(resource.RLIMIT_AS, (mem_bytes, mem_bytes))
         resource.setrlimit(resource.RLIMIT_CORE, (0, 0))
     return f
 
@@ -131,7 +143,7 @@ def parse_record(line):
 class Server:
     def __init__(self, mem_gib=4, binary=None, env=None, want_stderr=True):
         self.binary = binary or EVALSRV
-        self.mem = int(mem_gib * (1 << 30))
+        self.mem = int(mem_gib * (1 << 30)) if mem_gib else None
         self.env = env
         self.want_stderr = want_stderr
         self.proc = None
@@ -169,6 +181,24 @@ class Server:
         if self.errf is not None:
             self.errf.close()
             self.errf = None
+
+    def quit(self, timeout=120):
+        """Asks the server to exit normally (so that leak checkers report); returns (exit status, stderr tail)."""
+        try:
+            os.write(self.proc.stdin.fileno(), b"QUIT\n")
+            self.proc.stdin.close()
+        except OSError:
+            pass
+        try:
+            rc = self.proc.wait(timeout=timeout)
+        except subprocess.TimeoutExpired:
+            self._kill()
+            rc = None
+        err = self.stderr_since()[-6000:].decode("utf-8", "replace")
+        self.proc = None
+        self.errf.close()
+        self.errf = None
+        return rc, err
 
     def _readline(self, deadline):
         while True:
